@@ -28,6 +28,9 @@ Definition mvs (x : str) : val := VS x.
 Definition mva (sh : list nat) (d : list str) : val := VA {| shp := sh; dat := d |}.
 Definition mf (n : str) (o p : list str) (b d : env) (sp : option mapspec) (i r : list nat) : mfunc :=
   {| fname := n; fouts := o; fparams := p; fbound := b; fdefaults := d; fspec := sp; fint := i; fret := r |}.
+(* aliasing probe on a MapSpec pipeline: rewrite rw gives B from (a copy of) A; then one side is mutated *)
+Record acase := { a_funcs : mpipe; a_rw : mop; a_side : bool }.
+Definition acs (fs : mpipe) (x : mop) (side : bool) : acase := {| a_funcs := fs; a_rw := x; a_side := side |}.
 Definition mcs (fs : mpipe) (in1 : env) (internal : shape_dict) (x : mop) (vars : list env) : mcase :=
   {| m_funcs := fs; m_inputs1 := in1; m_internal := internal; m_op := x; m_variants := vars |}.
 
@@ -184,5 +187,26 @@ Definition spec_map (c : mcase) (obs : sx) : bool :=
           | _ => false
           end
       end
+  | _ => false
+  end.
+
+(* ------------------------------------------------------------------ aliasing probes on MapSpec pipelines *)
+(* observed state of a pipeline: per function (sorted by outputs) [outs; params; MapSpec string].
+   The model is pure: whatever is done to the other object, the state of an object stays what it was. *)
+Definition sx_mstate (p : mpipe) : sx :=
+  SL (map (fun f => SL [SL (map SS (fouts f)); SL (map SS (fparams f));
+                        SS (match fspec f with Some m => print (sorted_ins m) | None => s "None" end)])
+          (StrOrd.sort (fun a b => StrOrd.strs_ltb (fouts a) (fouts b)) p)).
+Definition run_alias_map (c : acase) : sx :=
+  match apply_mop (a_rw c) (a_funcs c) with
+  | Err e => SL [SErr e; SL []; SL []; SL []; SL []]
+  | Ok b =>
+      let sa := sx_mstate (a_funcs c) in
+      let sy := if a_side c then sx_mstate b else sa in
+      SL [SL [SS (s "ok")]; sa; sa; sy; sy]
+  end.
+Definition spec_alias_map (c : acase) (obs : sx) : bool :=
+  match obs with
+  | SL [status; a0; a1; y0; y1] => sx_is_err status || (sx_eqb a0 a1 && sx_eqb y0 y1)
   | _ => false
   end.
